@@ -17,7 +17,9 @@ import (
 	"encoding/hex"
 	"encoding/json"
 	"flag"
+	"sort"
 	"strings"
+	"sync"
 
 	"verif/harness/ref"
 	"verif/harness/sim"
@@ -100,6 +102,48 @@ func runTSS(run *sim.Run, cases []int) {
 	}
 }
 
+// sampleBox keeps, per layer, the samples with the lowest case index (deterministic under parallelism).
+type sampleBox struct {
+	mu   sync.Mutex
+	best map[string]map[int]any
+}
+
+var samples = sampleBox{best: map[string]map[int]any{}}
+
+func (b *sampleBox) offer(layer string, idx int, v any) {
+	b.mu.Lock()
+	defer b.mu.Unlock()
+	if b.best[layer] == nil {
+		b.best[layer] = map[int]any{}
+	}
+	b.best[layer][idx] = v
+	if len(b.best[layer]) > 2 {
+		hi := -1
+		for k := range b.best[layer] {
+			if k > hi {
+				hi = k
+			}
+		}
+		delete(b.best[layer], hi)
+	}
+}
+
+func (b *sampleBox) emit(run *sim.Run) {
+	for _, l := range []struct {
+		name string
+		n    int
+	}{{"pure", 1}, {"chain", 2}, {"tss", 1}} {
+		var ks []int
+		for k := range b.best[l.name] {
+			ks = append(ks, k)
+		}
+		sort.Ints(ks)
+		for i := 0; i < l.n && i < len(ks); i++ {
+			run.Sample(b.best[l.name][ks[i]])
+		}
+	}
+}
+
 func seq(n int) []int {
 	out := make([]int, n)
 	for i := range out {
@@ -118,7 +162,7 @@ func main() {
 	run.Assume(
 		"reference = HMAC_DRBG(SHA-256) per SP 800-90A written with crypto/hmac only (self-tested on the NIST SHA-512 example and the CAVP SHA-256 COUNT=0 vector at start-up); one 8-byte Generate request per integer, big-endian",
 		"weight vectors fed to the samplers have a total <= 2^64-1 and at least cnt positive entries; the real code panics (safeAdd / modulo by zero) outside that domain, which is only observed (class overflow), not judged",
-		"eligible validator order = consensus power (tokens/10^6) descending, operator address ascending; weight = bonded tokens; staking changes and authority param changes are settled in blocks without requests; MsgActivate in the same block as requests is modelled sequentially",
+		"eligible validator order = consensus power (tokens/10^6) descending, operator address ascending; weight = bonded tokens; eligibility (staking status, tokens, oracle IsActive) is read from committed state before the block; delegations, undelegations, unjail and downtime-jailing blocks carry no requests; MsgActivate in the same block as requests is modelled sequentially",
 		"request committees are compared as ordered lists (draw order of the specification), TSS committees as id-sorted lists",
 		"TSS selection is exercised at keeper level on synthetic groups in a store branch (no DKG, no live signing group, no on-chain MsgRequestSignature); DE contents are arbitrary curve points",
 		"IBC-originated oracle requests and validators with tokens >= 2^64 are not driven",
@@ -150,6 +194,7 @@ func main() {
 		sim.Parallel(run.N(64, 4_000), 16, func(i int) { chainCase(run, i) })
 	}
 
+	samples.emit(run)
 	for _, c := range []string{
 		"selftest:nist-sha512-example-ok", "selftest:cavp-sha256-count0-ok",
 		"pure:max-weight-compared", "pure:choose-one-compared", "pure:choose-some-compared", "pure:best-of-n-differs-from-first-try",
